@@ -67,6 +67,7 @@ type c09Plan struct {
 	unprivileged bool
 	strace       bool
 	divergent    bool
+	pidns        bool // the child is process 1 of a new PID namespace and thread 0 of the history is its main thread (tid 1)
 }
 
 func c09() {
@@ -117,6 +118,13 @@ func c09() {
 						{Thread: 0, Op: "load", Flags: fl2, NNP: true, Policy: "valid2"}, {Thread: 2, Op: "supported"}}})
 			}
 		}
+	}
+	// the same pattern in a process that is number 1 of its PID namespace (a container's init): the thread the kernel names
+	// when it refuses the synchronisation is then thread 1
+	for _, fl2 := range []uint32{flagTSync, flagTSync | flagLog, flagTSync | 4, flagTSync | 0x10} {
+		plans = append(plans, c09Plan{desc: fmt.Sprintf("divergent in a PID namespace: main thread (tid 1) loads flags=0, B loads flags=%#x", fl2), threads: 3, divergent: true, pidns: true,
+			calls: []vlib.LoadCall{{Thread: 0, Op: "load", Flags: 0, NNP: true, Policy: "valid0"}, {Thread: 1, Op: "load", Flags: fl2, NNP: true, Policy: "valid1"},
+				{Thread: 2, Op: "load", Flags: fl2, NNP: true, Policy: "valid2"}, {Thread: 0, Op: "load", Flags: fl2, NNP: true, Policy: "valid3"}, {Thread: 1, Op: "supported"}}})
 	}
 	// tsync first, then everything is an ancestor: later tsync loads succeed
 	plans = append(plans, c09Plan{desc: "tsync chain", threads: 4, calls: []vlib.LoadCall{{Thread: 0, Op: "load", Flags: flagTSync, NNP: true, Policy: "valid0"},
@@ -199,11 +207,14 @@ func c09() {
 			}
 			pl.calls = append(pl.calls, call)
 		}
-		pl.desc = fmt.Sprintf("PRNG history %d (%d threads, %d calls, unprivileged=%v)", i, pl.threads, len(pl.calls), pl.unprivileged)
+		if i%10 == 7 && !pl.unprivileged {
+			pl.pidns = true
+		}
+		pl.desc = fmt.Sprintf("PRNG history %d (%d threads, %d calls, unprivileged=%v, pid namespace=%v)", i, pl.threads, len(pl.calls), pl.unprivileged, pl.pidns)
 		plans = append(plans, pl)
 	}
 	for i := range plans {
-		plans[i].strace = i%9 == 0 || plans[i].inject != nil
+		plans[i].strace = (i%9 == 0 && !plans[i].pidns) || plans[i].inject != nil
 	}
 
 	bin, err := vlib.BuildHarnessCmd("vchild", "")
@@ -225,6 +236,10 @@ func c09() {
 			}
 		}
 		cc := &vlib.ChildCase{Unprivileged: pl.unprivileged, StraceInject: pl.inject, History: &vlib.HistoryCase{Threads: pl.threads, Calls: pl.calls, Policies: used, Probes: probeNrs}}
+		if pl.pidns {
+			cc.PidNamespace, cc.History.MainThreadIsWorker0 = true, true
+			run.Count("histories_as_process_1_of_a_pid_namespace", 1)
+		}
 		if pi%4 == 2 {
 			cc.GCSpray = 1 + (pi/4)%3
 			run.Count("histories_with_gc_and_allocation_spray_before_every_seccomp_call", 1)
